@@ -1425,6 +1425,10 @@ func (p *PubSub) announceRetry(pid peer.ID, topic string, sub bool) {
 
 	retry := func() {
 		_, okSubs := p.mySubs[topic]
+		if t := p.myTopics[topic]; okSubs && t != nil && t.fanoutOnly {
+			// subscriptions on a fanout-only topic are never announced
+			okSubs = false
+		}
 		_, okRelays := p.myRelays[topic]
 
 		ok := okSubs || okRelays
